@@ -28,6 +28,9 @@ NOT_APPLICABLE = {}
 # commits in /repo that add verif-tagged hooks
 HOOK_COMMITS = ["87c6d7a"]
 
+# properties whose check is finished and registered in MANIFEST.json
+READY = ["C01", "C02", "C03", "C04", "C06", "C07", "C19"]
+
 PROPS = {}
 for f in sorted(glob.glob(os.path.join(HERE, "props.d", "*.json"))):
     PROPS[os.path.basename(f)[:-5]] = json.load(open(f))
